@@ -38,7 +38,12 @@ static void mul_width(const std::string& routine, const JVal& in, JVal& out, int
         if (affine) d->template multiply_wnaf<A, bits, 4>(abase, s); else d->template multiply_wnaf<P, bits, 4>(base, s);
     }
     else if (routine == "wnaf") { if (affine) d->template multiply_wnaf<A, BigInt<bits>>(abase, k); else d->template multiply_wnaf<P, BigInt<bits>>(base, k); }
-    else if (routine == "doubleadd") { if (affine) d->multiply_doubleadd(abase, k); else d->multiply_doubleadd(base, k); }
+    else if (routine == "doubleadd") {
+        if (in.has("hb")) {       // the optional third argument: only bits hb..0 of the scalar are read
+            int hb = (int) in["hb"].i;
+            if (affine) d->multiply_doubleadd(abase, k, hb); else d->multiply_doubleadd(base, k, hb);
+        } else { if (affine) d->multiply_doubleadd(abase, k); else d->multiply_doubleadd(base, k); }
+    }
     else if (routine == "multiply") {    // the statically dispatched entry point for this width
         constexpr bool has = (Grp<P>::g == 1 && (bits == 256 || bits == 128)) || (Grp<P>::g == 2 && (bits == 256 || bits == 512));
         if constexpr (has) { if (affine) d->multiply(abase, k); else d->multiply(base, k); }
